@@ -67,25 +67,32 @@ func (l *KUAndEKUInconsistent) Execute(c *x509.Certificate) *lint.LintResult {
 //	indicated, as long as the intended purpose is present.
 func (l *KUAndEKUInconsistent) multiPurpose(c *x509.Certificate) *lint.LintResult {
 	// Create a map with each KeyUsage combination that is authorized for the
-	// included extKeyUsage(es).
+	// included extKeyUsage(es): every combination a single EKU authorizes, and,
+	// because any of the EKUs may be seen combined with any other one, every
+	// union of such combinations. The set is built as a fixed point so that it
+	// does not depend on the iteration order of the maps involved.
 	var mp = map[x509.KeyUsage]bool{}
 	for _, extKeyUsage := range c.ExtKeyUsage {
-		var i int
 		if _, ok := eku[extKeyUsage]; !ok {
 			return &lint.LintResult{Status: lint.Pass}
 		}
 		for ku := range eku[extKeyUsage] {
-			// There is nothing to merge for the first EKU.
-			if i > 0 {
-				// We could see this EKU combined with any other EKU so
-				// create that possibility.
-				for mpku := range mp {
-					mp[mpku|ku] = true
+			mp[ku] = true
+		}
+	}
+	for changed := true; changed; {
+		changed = false
+		var merged []x509.KeyUsage
+		for a := range mp {
+			for b := range mp {
+				if !mp[a|b] {
+					merged = append(merged, a|b)
 				}
 			}
-
+		}
+		for _, ku := range merged {
 			mp[ku] = true
-			i++
+			changed = true
 		}
 	}
 	if !mp[c.KeyUsage] {
